@@ -43,6 +43,42 @@ def cases(rng, quick, gr):
         for init in lst:
             use = "Op(v) | 0\n" if ty not in ("int",) else "Op(v, v + 1) | v * 0\n"
             yield {"tag": "scalar-" + ty, "text": HDR + "%s v = %s\n%s" % (ty, init, use)}
+    # computed initialisers: the variable holds a value of the DECLARED (Python) type, not merely an equal number
+    comp = {"int": ["2 * 3", "n + 1", "2 ** 3", "B[2]", "B[1] * 2", "7 - 9", "-n"], "float": ["n / 2", "sqrt(16)", "B[0] * 0.5", "x + 1", "2 ** -1", "pi * 2", "-x"],
+            "complex": ["x * 1j", "B[1] + 2j", "exp(1j)", "(1+1j) ** 2", "n + 0j"]}
+    for ty, lst in comp.items():
+        for init in lst:
+            text = HDR + "int n = 3\nfloat x = 0.5\nint array B =\n    4, 5, 6\n%s v = %s\nOp(v) | 0\n" % (ty, init)
+
+            def pred(impl, text=text, ty=ty, init=init):
+                try:
+                    p = impl.loads(text)
+                except Exception:  # noqa: BLE001
+                    return None
+                v = p.variables["v"]
+                want = {"int": int, "float": float, "complex": complex}[ty]
+                if type(v) is not want:
+                    return "%s v = %s: the variable holds a %s, not a value of the declared type %s" % (ty, init, type(v).__name__, ty)
+                for nm, t in (("n", int), ("x", float)):
+                    if type(p.variables[nm]) is not t:
+                        return "%s: holds a %s" % (nm, type(p.variables[nm]).__name__)
+                return None
+            yield {"tag": "scalar-type-exact", "text": text, "pred": pred, "input": {"check": "pred", "tag": "scalar-type-exact", "text": text}}
+    # rows mixing integer literals above 2**53 with float-valued elements in an int array (converted element by element)
+    for big in [9007199254740993, 2 ** 62 + 1, -(2 ** 60) - 3]:
+        for other in ["4 / 2", "2.0", "6 / 3 + 0"]:
+            text = HDR + "int array A =\n    %d, %s\nint first = A[0]\nOp(A[0], A) | 0\n" % (big, other)
+
+            def pred(impl, text=text, big=big):
+                try:
+                    p = impl.loads(text)
+                except Exception:  # noqa: BLE001
+                    return None
+                a = p.variables["A"]
+                if int(a[0, 0]) != big or int(p.variables["first"]) != big or int(p.operations[0]["args"][0]) != big:
+                    return "int array element written %d is loaded as %d" % (big, int(a[0, 0]))
+                return None
+            yield {"tag": "mixed-row-big-int", "text": text, "pred": pred, "input": {"check": "pred", "tag": "mixed-row-big-int", "text": text}}
     # declarations around for loops: a variable (scalar or array) declared AFTER a loop whose loop variable had the same name is an
     # ordinary variable; declarations between and inside other constructs keep their values
     for nm in ["k", "U", "m"]:
